@@ -28,6 +28,21 @@ pub struct StateV01 {
     predicate: PredicateWrapper,
 }
 
+impl StateV01 {
+    /// The declared `predicateType` must name the format of the predicate
+    /// the statement actually contains.
+    pub(super) fn check_predicate_type(self) -> Result<Self> {
+        let actual = self.predicate.clone().into_trait().version();
+        if self.predicate_type != actual {
+            return Err(Error::AttestationFormatDismatch(
+                self.predicate_type.into(),
+                actual.into(),
+            ));
+        }
+        Ok(self)
+    }
+}
+
 impl StateLayout for StateV01 {
     fn version(&self) -> StatementVer {
         StatementVer::V0_1
